@@ -132,6 +132,17 @@ H("h_datetime_fromstr::c12_fromstr_a25", ["C12", "C04"], "toml_datetime::Datetim
 H("h_datetime_fromstr::c12_fromstr_u7", ["C12", "C04"], "toml_datetime::Datetime::from_str, digit", U % 7, tier="thorough", measured_s=93, models=("M8",))
 H("h_datetime_fromstr::c12_fromstr_u5", ["C12", "C04"], "toml_datetime::Datetime::from_str, digit", U % 5, measured_s=60, models=("M8",))
 
+# ---- C12 step 3: printer (engine E2: unmodified toml_datetime source, Display driven through core::fmt::Formatter into a fixed buffer)
+P = "toml_datetime: <%s as Display>::fmt (unmodified source via E2)"
+H("h_datetime_printer::c12_print_date", ["C12"], P % "Date", "every Date with year <= 9999, month 1-12, day valid for the month", measured_s=27, models=("E2",))
+H("h_datetime_printer::c12_print_time_whole_seconds", ["C12"], P % "Time", "every Time with hour <= 23, minute <= 59, second <= 60, nanosecond 0", measured_s=26, models=("E2",))
+H("h_datetime_printer::c12_print_offset", ["C12"], P % "Offset", "Z and every Custom offset with |minutes| <= 23:59", measured_s=29, models=("E2",))
+H("h_datetime_printer::c12_print_local_date_and_time", ["C12"], P % "Datetime", "every local date; every local time with whole seconds", measured_s=102, models=("E2",))
+H("h_datetime_printer::c12_print_local_datetime", ["C12"], P % "Datetime", "every local date-time with whole seconds", measured_s=176, models=("E2",))
+H("h_datetime_printer::c12_print_offset_datetime", ["C12"], P % "Datetime", "every offset date-time with whole seconds, offset Z or |minutes| <= 23:59", tier="thorough", measured_s=483, models=("E2",), mem_gb=24)
+H("h_datetime_printer::c12_print_time_millis", ["C12"], P % "Time" + " incl. format!(\"{:09}\") + trim_end_matches('0')", "every valid time with nanosecond = m * 1_000_000, m in 1..=999", tier="thorough", measured_s=224, models=("E2",))
+H("h_datetime_printer::c12_print_time_nanos_low", ["C12"], P % "Time" + " incl. format!(\"{:09}\") + trim_end_matches('0')", "every valid time with nanosecond in 1..=999", tier="thorough", measured_s=172, models=("E2",))
+
 # ---- C11: float overflow guard ------------------------------------------------------------------
 H("h_float::c11_float_overflow_guard", ["C11", "C01"], "numbers::float (float_, rest.try_map(parse), verify) with M2 + M3",
   "[+-]? d (. d)? e [+-]? ddd : all sign choices, all digits symbolic (mantissa <= 2 digits, exponent 3 digits)", tier="thorough", measured_s=725, models=("M1", "M2", "M3", "M7"), mem_gb=30)
@@ -203,7 +214,7 @@ PROPERTIES = {
         ],
     },
     "C12": {
-        "outside": "the date_time alt/opt assembly in toml_edit; strings outside the shapes and longer than 8 bytes; the serde bridge",
+        "outside": "the date_time alt/opt assembly in toml_edit beyond 10 bytes; standalone-parser inputs longer than 25 bytes outside the shapes; printing of fractional seconds outside the two slices (whole milliseconds, 1-999 ns); the serde bridge",
         "assumptions": ["oracle: /verif/refmodel/src/datetime.rs (RFC 3339 5.6 + field ranges of the property; second 0-60 always accepted, U1-c)"],
     },
 }
